@@ -52,6 +52,12 @@ type Event struct {
 
 var clock atomic.Int64
 
+// FaultEvent records a scripted error that a source actually returned.
+type FaultEvent struct {
+	Seq int64
+	Err error
+}
+
 // Tick returns the next value of the global logical clock.
 func Tick() int64 { return clock.Add(1) }
 
@@ -87,6 +93,7 @@ type RecStream[T any] struct {
 	HandedAt  []time.Time
 	EndSeenAt time.Time
 	endSeen   bool
+	faults    []FaultEvent
 	tpos      map[int]int
 }
 
@@ -143,6 +150,7 @@ func (s *RecStream[T]) Next(ctx context.Context) (T, error) {
 	if q := s.Transient[pos]; s.tpos[pos] < len(q) {
 		err := q[s.tpos[pos]]
 		s.tpos[pos]++
+		s.faults = append(s.faults, FaultEvent{Tick(), err})
 		s.mu.Unlock()
 		return ret(zero, err)
 	}
@@ -175,6 +183,7 @@ func (s *RecStream[T]) Next(ctx context.Context) (T, error) {
 		if !s.endSeen {
 			s.endSeen, s.EndSeenAt = true, time.Now()
 		}
+		s.faults = append(s.faults, FaultEvent{Tick(), s.Final})
 		s.mu.Unlock()
 		return ret(zero, s.Final)
 	}
@@ -215,6 +224,13 @@ func (s *RecStream[T]) Close() {
 		s.problem("Close called a second time")
 	}
 	s.closed = true
+}
+
+// Faults lists the scripted errors returned so far.
+func (s *RecStream[T]) Faults() []FaultEvent {
+	s.mu.Lock()
+	defer s.mu.Unlock()
+	return append([]FaultEvent(nil), s.faults...)
 }
 
 // Handed is the number of items handed out so far.
